@@ -12,6 +12,7 @@ Layer B: channels
   b64url       – ClearkeyHandler.base64url_encode/decode vs b64urlEncode/b64urlDecode
   clearkey_lic – POST /clearkey vs the model of the handler
   cp_elements  – ContentProtection elements of rendered manifests vs the model's hooks
+  drm_history  – request sequences with per-request DRM parameters: responses are history-independent
 Layer C: the property text with independent implementations (c11_oracle: hashlib key-seed
 algorithm, uuid bytes_le, AES-ECB checksum, own PRO parser, lxml WRMHEADER reader, mp4walk).
 """
@@ -1288,10 +1289,224 @@ def ch_cp_elements(ctx, env) -> Channel:
 
 # ---------------------------------------------------------------- check.py interface
 
+
+# ---------------------------------------------------------------- drm_history (request sequences)
+
+def probe_request(env, c):
+    """(method, url, json body) of a prheader_http / cp / clearkey case"""
+    media = {m["name"]: m for m in env.media()}
+    if c["kind"] == "clearkey":
+        return "POST", "/clearkey", c["body"]
+    params = http_params(c)
+    if c["kind"] == "prheader_http" and c["source"] == "init":
+        return "GET", lib.init_url(media[c["name"]], c["mode"], params), None
+    if c["kind"] == "cp" and c.get("route") == "mps":
+        return "GET", f"/mps/{c['mode']}/{c11_env.MPS_NAME}/{c['manifest']}" + lib.query(params), None
+    return "GET", f"/dash/{c['mode']}/{c['stream']}/{c['manifest']}" + lib.query(params), None
+
+
+def probe_fetch(env, c):
+    import appboot
+    method, url, body = probe_request(env, c)
+    client = env.app.client()
+    with appboot.Clock(NOW):
+        r = client.post(url, json=body) if method == "POST" else client.get(url)
+    return r.status_code, bytes(r.data)
+
+
+def drm_probes(env) -> list[dict]:
+    """requests re-issued after every step: none of them carries a licence URL of its own, so they
+    fall back to what is stored for the stream (bbb, mk, m3, va) or to the built-in default (nl)"""
+    out = []
+    for stream, name in (("nl", "nl_v6_enc"), ("nl", "nl_a1_enc"), ("bbb", "bbb_v6_enc"), ("mk", "mk_v6_enc"),
+                         ("m3", "m3_a1_enc"), ("va", "va_a1_enc")):
+        for drm, ver in (("playready", None), ("all", None), ("playready-moov", "3.0"), ("clearkey", None)):
+            out.append({"kind": "prheader_http", "source": "init", "stream": stream, "name": name,
+                        "mode": "vod" if ver is None else "live", "drm": drm, "version": ver, "la": None})
+    for stream in ("nl", "bbb", "va"):
+        for drm in ("playready", "all"):
+            out.append({"kind": "cp", "route": "dash", "stream": stream, "manifest": "hand_made.mpd", "mode": "vod",
+                        "drm": drm, "version": None, "la": None})
+    out.append({"kind": "cp", "route": "mps", "stream": "bbb", "manifest": "hand_made.mpd", "mode": "vod",
+                "drm": "all", "version": None, "la": None})
+    out.append({"kind": "clearkey", "body": {"kids": [orc.b64url(c11_env.KID_A), orc.b64url(c11_env.KID_B)], "type": "temporary"}})
+    return out
+
+
+LA_PARAMS = ["playready_la_url", "playready__la_url", "marlin_la_url", "marlin__la_url", "clearkey_la_url", "clearkey__la_url"]
+
+
+def drm_steps(env, rng, n_random: int) -> list[dict]:
+    """requests whose after-effects are looked for: manifests / init segments / licence requests with
+    per-request DRM parameters (licence URLs for every system through both parameter spellings,
+    PlayReady versions, selections) on streams with 1, 2, 3 and split key sets, with and without
+    stored licence URLs; direct generate_* calls with header versions and custom attributes"""
+    media = [m for m in env.media() if m["encrypted"] and m["stream"] != "mx"]
+    steps = []
+    for i, param in enumerate(LA_PARAMS):
+        url = f"http://other-client-{i}.example/lic?step={i}&x=<{param}>"
+        steps.append({"op": "GET", "url": "/dash/vod/bbb/bbb_v6_enc/init.m4v" + lib.query({"drm": "all", param: url})})
+        steps.append({"op": "GET", "url": "/dash/vod/mk/hand_made.mpd" + lib.query({"drm": "all", param: url.replace("<", "(")})})
+    for _ in range(n_random):
+        r = rng.random()
+        q = {"drm": rng.choice(["playready", "all", "playready-cenc-pro", "clearkey,playready", "marlin,playready-moov",
+                                "clearkey", "marlin"]),
+             "playready__version": rng.choice([None, None, "1.0", "2.0", "3.0", "4.0"])}
+        if rng.random() < .7:
+            q[rng.choice(LA_PARAMS)] = gen_url(rng, allow_pct_plus=False, manifest_safe=True)
+        if r < .4:
+            m = rng.choice(media)
+            steps.append({"op": "GET", "url": lib.init_url(m, rng.choice(["vod", "live"]), {k: v for k, v in q.items() if v})})
+        elif r < .75:
+            mode = rng.choice(["vod", "live", "odvod"])
+            steps.append({"op": "GET", "url": f"/dash/{mode}/{rng.choice(['bbb', 'mk', 'm3', 'va', 'nl'])}/"
+                                              f"{'hand_made.mpd' if mode == 'odvod' else rng.choice(['hand_made.mpd', 'manifest_e.mpd', 'manifest_n.mpd'])}"
+                                              + lib.query(q)})
+        elif r < .82:
+            steps.append({"op": "GET", "url": f"/mps/{rng.choice(['vod', 'live'])}/{c11_env.MPS_NAME}/hand_made.mpd" + lib.query(q)})
+        elif r < .9:
+            steps.append({"op": "POST", "url": "/clearkey", "json": gen_clearkey(rng, env.stored_keys())["body"]})
+        else:
+            steps.append({"op": "DIRECT", "case": gen_prheader_direct(rng)})
+    return steps
+
+
+def do_drm_step(env, step):
+    import appboot
+    if step["op"] == "DIRECT":
+        impl_prheader_direct(env, step["case"])
+        return 200
+    client = env.app.client()
+    with appboot.Clock(NOW):
+        r = client.post(step["url"], json=step.get("json")) if step["op"] == "POST" else client.get(step["url"])
+    return r.status_code
+
+
+def step_label(step) -> str:
+    return step.get("url") or "direct PlayReady(...).generate_pro call"
+
+
+def run_drm_history(env, steps, probes, rng=None, probes_per_step=5, stop_at_first=True):
+    import hashlib
+    stats = {"steps": 0, "probes": 0, "statuses": {}}
+    fails, const_fails = [], []
+    baseline = {}
+    for c in probes:
+        baseline[json.dumps(c, sort_keys=True)] = probe_fetch(env, c)
+        for f in run_oracle(env, c):
+            fails.append({"what": "before any other request: " + f["what"],
+                          "case": {"kind": "drm_history", "sequence": [], "probe": c}})
+    const0 = lib.snapshot_constants()
+    done = []
+    for i, step in enumerate(steps):
+        st = do_drm_step(env, step)
+        done.append(step)
+        stats["steps"] += 1
+        stats["statuses"][st] = stats["statuses"].get(st, 0) + 1
+        const1 = lib.snapshot_constants()
+        changed = sorted(k for k in set(const0) | set(const1) if const0.get(k) != const1.get(k))
+        force_all = False
+        if changed:
+            k = changed[0]
+            const_fails.append({"what": f"shared DRM object / constant {k} changed from {str(const0.get(k))[:200]} to "
+                                        f"{str(const1.get(k))[:200]} while serving {step_label(step)}",
+                                "case": {"kind": "drm_history", "sequence": list(done), "probe": None, "constant": k}})
+            const0 = const1
+            force_all = True
+        if force_all or rng is None or len(probes) <= probes_per_step or i == len(steps) - 1:
+            todo = probes
+        else:
+            todo = rng.sample(probes, probes_per_step)
+        for c in todo:
+            got = probe_fetch(env, c)
+            stats["probes"] += 1
+            b = baseline[json.dumps(c, sort_keys=True)]
+            if got != b:
+                _, url, _ = probe_request(env, c)
+                what = (f"response to {url} depends on the requests served before: after {len(done)} request(s) (last "
+                        f"{step_label(step)}) status {got[0]}, {len(got[1])} bytes (sha1 {hashlib.sha1(got[1]).hexdigest()[:10]}) "
+                        f"instead of status {b[0]}, {len(b[1])} bytes (sha1 {hashlib.sha1(b[1]).hexdigest()[:10]}) on a fresh application")
+                of = run_oracle(env, c)
+                if of:
+                    what += "; " + of[0]["what"]
+                fails.append({"what": what, "case": {"kind": "drm_history", "sequence": list(done), "probe": c}})
+                break
+        if (fails or const_fails) and stop_at_first:
+            break
+    return fails + const_fails, stats
+
+
+def replay_drm_history(case) -> dict:
+    env = c11_env.get_env()
+    probes = [case["probe"]] if case.get("probe") else drm_probes(env)[:10]
+    fails, stats = run_drm_history(env, case["sequence"], probes)
+    return {"fails": bool(fails), "failures": fails[:3], "case": case, "stats": stats}
+
+
+def drm_history_subprocess(case, timeout=300):
+    code = ("import sys, json; sys.dont_write_bytecode = True\n"
+            "import check, importlib\n"
+            "mod = importlib.import_module('props.c11')\n"
+            "case = json.loads(sys.stdin.read())\n"
+            "print('RESULT', json.dumps(bool(mod.replay_drm_history(case)['fails'])))\n")
+    try:
+        p = common.run_python(["-c", code], timeout=timeout, input=json.dumps(case),
+                              env_extra={"DASHLIVE_REPO": str(common.REPO)})
+    except Exception:
+        return None
+    for line in p.stdout.splitlines():
+        if line.startswith("RESULT "):
+            return json.loads(line[7:])
+    return None
+
+
+def shrink_drm_history(case) -> dict:
+    seq = case["sequence"]
+    if len(seq) <= 1:
+        return case
+    cands = [[seq[-1]]] + [[s_, seq[-1]] for s_ in seq[:-1][-3:]] + [[s_] for s_ in seq[:-1][-6:]]
+    for cand in cands:
+        c = dict(case, sequence=cand)
+        if drm_history_subprocess(c) is True:
+            return c
+    return case
+
+
+def ch_drm_history(ctx, env) -> Channel:
+    ch = Channel("drm_history", rule=(
+        "sequences of requests against ONE in-process application, issued before any other channel sends a request: "
+        "init segments, manifests (odvod/vod/live, /mps) and licence requests with per-request DRM parameters "
+        "(licence URLs for PlayReady / Marlin / ClearKey through both parameter spellings, PlayReady versions, "
+        "selections), direct PlayReady(version, header_version).generate_* calls with custom attributes, on streams "
+        "with one, two, three and split key sets, with (bbb, mk, m3, va) and WITHOUT (nl) stored licence URLs; "
+        "interleaved with probes that carry no licence URL of their own (init segments, manifests, a licence "
+        "request).  After every request every probe response must be byte-identical to the one recorded on the fresh "
+        "application (which is judged by the C11 oracles), and no module-level constant or shared DRM object of "
+        "dashlive.drm / dashlive.server.options / drm_context may have changed; non-trivial = probe re-issued "
+        "after at least one request with a licence URL; distinct by (step, probe)"))
+    rng = ctx.rng("drm_history")
+    probes = drm_probes(env)
+    steps = drm_steps(env, rng, ctx.scale(30, 1200))
+    fails, stats = run_drm_history(env, steps, probes, rng=rng, probes_per_step=ctx.scale(5, 10))
+    ch.evaluations = stats["probes"] + stats["steps"] + len(probes)
+    for st, n in sorted(stats["statuses"].items()):
+        ch.count(f"step status {st}", n)
+    ch.count("probes re-issued", stats["probes"])
+    for i in range(stats["probes"]):
+        ch.nontrivial.add(i)
+    for f in fails[:3]:
+        if f["case"].get("sequence"):
+            f = dict(f, case=shrink_drm_history(f["case"]))
+        ch.oracle_failures.append(f)
+    ch.sample({"steps": [step_label(x) for x in steps[:3]], "probes": len(probes)}, limit=1)
+    return ch
+
+
 def channels(ctx):
     yield ch_cryptotie(ctx)
     yield ch_prcrypto(ctx)
     env = c11_env.get_env()
+    yield ch_drm_history(ctx, env)       # first user of the application: its baseline is the fresh app
     yield ch_prheader(ctx, env)
     yield ch_b64url(ctx)
     yield ch_clearkey(ctx, env)
@@ -1314,6 +1529,8 @@ def run_oracle(env, case) -> list[dict]:
         return oracle_cp(env, case)
     if kind == "cp_key_union":
         return oracle_key_union(env, case)
+    if kind == "drm_history":
+        return replay_drm_history(case)["failures"]
     return []
 
 
